@@ -248,3 +248,63 @@ def peers(tier: str, prop: str) -> list[dict]:
     if prop == "C01":
         return [b for b in base if b["mode"] in ("gym_direct", "lerax_to_gym")]
     return base
+
+
+def rollout(tier: str, prop: str) -> list[dict]:
+    TL = ["TimeLimit", 60]
+    classic = [
+        dict(env="CartPole", L=400, eager=True),
+        dict(env="CartPole", L=300, kwargs={"tsit5": True}, stack=[["TimeLimit", 25]]),
+        dict(env="MountainCar", L=600, stack=[TL]),
+        dict(env="ContinuousMountainCar", L=600, stack=[["TimeLimit", 200], ["RescaleAction", -2.0, 2.0]], eager=True),
+        dict(env="Acrobot", L=400, stack=[["TimeLimit", 100]]),
+        dict(env="Pendulum", L=500, stack=[["TimeLimit", 50], ["ClipAction"]]),
+        dict(env="Pendulum", L=300, kwargs={"tsit5": True}, stack=[["ClipObservation"], ["TimeLimit", 40], ["ClipReward", -1.0, 1.0]]),
+        dict(env="Acrobot", L=300, kwargs={"tsit5": True}),
+    ]
+    mj_quick = [
+        dict(env="InvertedPendulum", L=150, stack=[["TimeLimit", 40]]),
+        dict(env="Reacher", L=100, stack=[["TimeLimit", 25], ["ClipAction"]]),
+        dict(env="HalfCheetah", L=80, stack=[["TimeLimit", 40]]),
+    ]
+    mj_rest = [
+        dict(env="Ant", L=80, stack=[["TimeLimit", 40]]),
+        dict(env="Hopper", L=100, stack=[["TimeLimit", 50]]),
+        dict(env="Humanoid", L=50, stack=[["TimeLimit", 25]]),
+        dict(env="HumanoidStandup", L=50, stack=[["TimeLimit", 25]]),
+        dict(env="InvertedDoublePendulum", L=150, stack=[["TimeLimit", 40], ["RescaleAction", -2.0, 2.0]]),
+        dict(env="Pusher", L=80, stack=[["TimeLimit", 40]]),
+        dict(env="Swimmer", L=100, stack=[["TimeLimit", 50]]),
+        dict(env="Walker2d", L=100, stack=[["TimeLimit", 50], ["FlattenObservation"]]),
+    ]
+    g1 = [
+        dict(env="G1Standing", L=30, stack=[["TimeLimit", 15]]),
+        dict(env="G1Locomotion", L=30, stack=[["TimeLimit", 15]]),
+        dict(env="G1Standup", L=30, stack=[["TimeLimit", 15]]),
+    ]
+    if prop == "C12":
+        return classic[:4] + mj_quick[:1] if tier == "quick" else classic + mj_quick + mj_rest[:3]
+    if prop == "C01":
+        return classic[:5] + mj_quick[:1] if tier == "quick" else classic + mj_quick + mj_rest
+    if tier == "quick":
+        return classic + mj_quick
+    return classic + mj_quick + mj_rest + g1
+
+
+def g1(tier: str, prop: str) -> list[dict]:
+    clock = [dict(mode="clock", n=200000), dict(mode="clock", n=1000000)]
+    tasks = [
+        dict(mode="task", env="G1Locomotion", K=8, L=20),
+        dict(mode="task", env="G1Standing", K=8, L=16),
+        dict(mode="task", env="G1Standup", K=8, L=16),
+    ]
+    if tier == "quick":
+        return clock[:1] + tasks
+    swarm = [
+        dict(mode="task", env="G1Locomotion", K=16, L=40, kwargs={"friction_range": [0.6, 0.6], "mass_scale_range": [1.0, 1.0], "torso_offset_range": [0.0, 0.5],
+                                                                  "lin_vel_x_range": [0.2, 0.4], "gait_frequency_range": [2.0, 2.0]}),
+        dict(mode="task", env="G1Locomotion", K=16, L=40, kwargs={"friction_loss_scale_range": [0.1, 4.0], "armature_scale_range": [0.9, 1.2], "control_frequency_hz": 25.0}),
+        dict(mode="task", env="G1Standing", K=16, L=30, kwargs={"friction_range": [0.1, 2.0], "mass_scale_range": [0.5, 1.5]}),
+        dict(mode="task", env="G1Standup", K=16, L=30, kwargs={"torso_offset_range": [-2.0, 2.0]}),
+    ]
+    return clock + tasks + swarm
